@@ -100,6 +100,9 @@ PROPS = {
                  "thorough": {"env": {"C05_MAXV": 3, "C05_MAXR": 3}, "max_paths": 3000000, "timeout": 3400}},
                 {"name": "c05_dedup", "covers": ["both_waiting", "second_caller_got_value"], "quick": {"max_paths": 10000, "timeout": 600}},
             ]},
+            {"engine": "K", "crate": "k_misc", "harnesses": [
+                kh("c05_quorum_value_exact", "get_quorum_value: N(n) -> n for every non-zero n, One -> 1, All -> CLOSE_GROUP_SIZE, Majority -> least count above half", "all 2^64-1 values of n"),
+            ]},
         ],
         "assumptions": [
             "engine D on items of ant-networking: accumulate_get_record_found, handle_get_record_finished, handle_get_record_error, send_record_after_checking_target (event/kad.rs), the GetNetworkRecord arm (cmd.rs), GetRecordCfg + does_target_match (driver.rs), get_quorum_value, close_group_majority (lib.rs), in a model SwarmDriver with exactly the fields they touch",
@@ -107,7 +110,7 @@ PROPS = {
             "one-step induction: the pending read is an arbitrary state with <=2 versions x <=2 distinct responders in which no version has reached the quorum; every reply / terminating event is applied to it; the invariant is re-checked on reads that stay pending",
             "real tokio oneshot channels carry the outcomes; libp2p's query handle is a recorder; register/transaction payload decoding is replaced by typed shims (merge of transactions = set union)",
         ],
-        "bounds": {"quick": "quorum in {One, N(2), Majority(3), All(5)}, 1..2 waiting callers, optional expected value, <=2 versions x <=2 responders, one event from {reply from a new/known peer or self with new/known content, finished, not found, quorum failed, timeout}; de-duplication: two callers with independent quorums/expected values, up to 5 replies"},
+        "bounds": {"quick": "required count of every Quorum value (all n, Kani); quorum in {One, N(2), Majority(3), All(5)}, 1..2 waiting callers, optional expected value, <=2 versions x <=2 responders, one event from {reply from a new/known peer or self with new/known content, finished, not found, quorum failed, timeout}; de-duplication: two callers with independent quorums/expected values, up to 5 replies"},
         "outside": ["libp2p's own query progress semantics", "retries/backoff in get_record_from_network", "register merge in handle_split_record_error (client side)", "more than 2 versions / 2 responders per version in the pre-state"],
     },
     "C06": {
@@ -131,7 +134,7 @@ PROPS = {
         "parts": [
             {"engine": "D", "crate": "d_node", "harnesses": [
                 {"name": "c07_scratchpad_seq", "covers": ["replaced", "kept"], "quick": {"max_paths": 10000, "timeout": 600}},
-                {"name": "c07_union", "covers": ["transactions", "registers"], "quick": {"max_paths": 1000, "timeout": 600}},
+                {"name": "c07_union", "covers": ["transactions", "registers", "cross_kind"], "quick": {"max_paths": 1000, "timeout": 600}},
                 {"name": "c07_scratchpad_conc", "covers": ["settled"], "quick": {"max_paths": 100000, "timeout": 600}},
             ]},
         ],
@@ -185,6 +188,7 @@ PROPS = {
             {"engine": "D", "crate": "d_net", "harnesses": [
                 {"name": "c11_candidates", "covers": ["by_range", "close_group_fallback"], "quick": {"max_paths": 100000, "timeout": 900}},
                 {"name": "c08_add_multi", "covers": ["scheduled_some", "at_limit", "queued_and_scheduled"], "quick": {"max_paths": 100000, "timeout": 900}},
+                {"name": "c11_peers_in_range", "covers": ["none_in_range", "some_in_range"], "quick": {"max_paths": 100000, "timeout": 600}},
                 {"name": "c11_sort_peers", "covers": ["ok", "too_few"], "quick": {"max_paths": 100000, "timeout": 900}},
                 {"name": "c11_calc_closest", "covers": ["range_filter", "k_nearest"], "quick": {"max_paths": 100000, "timeout": 900}},
             ]},
